@@ -662,13 +662,16 @@ package input
 //@   ensures [decorators] len(result) == 1 && result[0] != nil && (forall m Input :: apply(result[0], m) == ValidateDecorators(m))
 //@ func DefaultVersionValidators
 //@   property C18 C11
-//@   ensures [one_gate] len(result) == 1
+//@   ensures [one_gate] len(result) == 1 && result[0] != nil
 //@ func NewDefaultValidator
 //@   property C11 C18 C13 C15 C04
 //@   ensures [meta_rules_applied] result != nil && (exists j int :: 0 <= j && j < len(result.validators) && (forall m Input :: apply(result.validators[j], m) == ValidateMeta(m)))
 //@   ensures [param_rules_applied] exists j int :: 0 <= j && j < len(result.validators) && (forall m Input :: apply(result.validators[j], m) == ValidateParams(m))
 //@   ensures [service_rules_applied] exists j int :: 0 <= j && j < len(result.validators) && (forall m Input :: apply(result.validators[j], m) == ValidateServices(m))
 //@   ensures [decorator_rules_applied] exists j int :: 0 <= j && j < len(result.validators) && (forall m Input :: apply(result.validators[j], m) == ValidateDecorators(m))
+// whatever the build version looks like, the version gate is among the rules (it decides by itself whether it applies):
+// five groups, one rule each
+//@   ensures [version_gate_always_installed C18] len(result.validators) == 5
 //@ func NewValidator
 //@   property C11
 //@   ensures [keeps_the_list] result != nil && ((forall j int :: 0 <= j && j < len(validators) ==> validators[j] != nil) ==> len(result.validators) == len(validators) && (forall j int :: 0 <= j && j < len(validators) ==> result.validators[j] == validators[j]))
